@@ -1,5 +1,6 @@
 import Cpl.Driver.Proto
 import Cpl.Model.Dsl2
+import Cpl.Model.DynS
 
 namespace Cpl.Driver
 open Cpl.Proto Cpl Cpl.Dsl
@@ -37,9 +38,14 @@ def opsEvolve2D (op : String) (a : Args) : Option String :=
           | some T, none => showEvolve2 (evolve2dFixed hist T rl.toRule2 r nb mode {})
           | none, some p =>
             let fuel := (argNat a "fuel").getD 10000
-            match evolve2dDynamic fuel hist p.eval2 rl.toRule2 r nb mode {} with
+            match evolve2dDynamicS fuel hist (recPred2 p.eval2) rl.toRule2 r nb mode {} [] with
             | none => "out-of-fuel"
-            | some res => showEvolve2 res
+            | some (.error e) => showErr e
+            | some (.ok (gs, st, log)) =>
+              let base := showEvolve2 (.ok (gs, st))
+              if (arg a "consults") == some "1" then
+                base ++ " consults=" ++ String.intercalate "/" (log.map fun (hs, t) => showHist hs ++ "@" ++ toString t)
+              else base
           | _, _ => badOp
     | _, _, _, _, _ => badOp
   | "vn_mask" => some <|
